@@ -785,7 +785,7 @@ fn verify_overlap_image(plan: &ConcPlan, base: &Model, live: &[Done], lins: &[(V
     let sig = |m: &Model| -> String {
         m.clients
             .iter()
-            .map(|(k, c)| format!("{}:{}:{}:{:?}", crate::model::sid(k), c.exists, c.versions.len(), c.snap.as_ref().map(|s| (crate::model::sid(&s.version), s.since, crate::rng::fnv(&s.data)))))
+            .map(|(k, c)| format!("{}:{}:{}:{:?}:{:?}", k, c.exists, c.versions.len(), c.versions.last().map(|v| v.id), c.snap.as_ref().map(|s| (s.version, s.since, crate::rng::fnv(&s.data)))))
             .collect::<Vec<_>>()
             .join("|")
     };
